@@ -87,7 +87,7 @@ Definition hop_dom (dt : dtype) (sh : shape) (o : hop) : bool :=
     | Some (Raise _) => true
     | None => false
     end
-  | HRoundtrip => match sh with [] => false | _ => true end
+  | HRoundtrip => true
   end.
 
 (* reads through the real path *)
